@@ -12,7 +12,9 @@ META = dict(
     explanation='symx: real Edfa.__call__/propagate/interpol_params/_calc_nf/_nf/noise_profile/_gain_profile on amplifiers built by '
                 'network_from_json from every type_def of the shipped library, with symbolic set gain, VOAs, p_max, input powers and '
                 'splits; real estimate_nf_model with concrete and symbolic datasheets',
-    bounds=['k<=3 in-band channels (+1 out-of-band), flat profile (tilt_target 0, no ripple)', 'gain in [-5, 50] dB, VOAs in [0, 20] dB, '
+    bounds=['k<=3 in-band channels (+1 out-of-band), flat profile (tilt_target 0, no ripple)',
+            'symbolic lower band edge within [f0 - 1.5 slot, f0 + 0.5 slot] of the first of 2 carriers; history: one earlier comb of equal '
+            'channel count, shifted by 1.2375 THz, weak enough not to saturate', 'gain in [-5, 50] dB, VOAs in [0, 20] dB, '
             'p_max in [0, 30] dBm, input power per channel <= 100 mW', 'NF datasheets: all variable_gain entries of the library '
             '(concrete) and symbolic datasheets within gain_min in [5,25], range 5-15 dB, nf in [4,12] dB'],
     assumptions=['floats modelled as reals', 'gain profile under tilt/ripple (secant approximation) is outside the claim',
